@@ -14,7 +14,8 @@ Line-protocol handler for property C01.
   C01.static <program> <observations | ->  → the two-phase resolver model on a PLAIN program:
        `skip not-plain`, or TAB separated
          static  frag=0|1  den=eq|neq|na  rt=ok|na|<class|where|param|expected|observed>  <canonical static phase>
-       frag: the decidable hypotheses of `resolver_refines_den_plain_checked` hold;
+       frag: the decidable hypotheses of `resolver_refines_den_staticmap_checked` hold (for a
+             plain program they are those of `resolver_refines_den_plain_checked`);
        den:  twoPhase = den on the recorded outs (must be `eq` whenever frag=1: the theorem);
        rt:   the model's run-time phase on the model's static phase against the OBSERVED
              `_args` of every stage job and the observed top-level outs;
@@ -326,49 +327,75 @@ def insertSorted (x : String × String) : List (String × String) → List (Stri
 
 def sortKV (xs : List (String × String)) : List (String × String) := xs.foldr insertSorted []
 
-partial def printR : RExp → String
+def idxText : Idx → String
+  | .i n => s!"(i {n})"
+  | .k s => "(k " ++ hexOfStr s ++ ")"
+  | .none => "(u)"
+
+/-- `fs`: the `fork` annotations above (rendered inside the references they qualify, like
+the known indices of `RefExp.Forks`; sorted by call id, innermost annotation wins) -/
+partial def printRF (fs : List (String × Idx)) : RExp → String
   | .lit j => "(lit " ++ printJV j ++ ")"
-  | .arr xs => "(arr" ++ String.join (xs.map fun x => " " ++ printR x) ++ ")"
+  | .arr xs => "(arr" ++ String.join (xs.map fun x => " " ++ printRF fs x) ++ ")"
   | .map kvs => "(map" ++ kvText kvs ++ ")"
   | .struct kvs => "(st" ++ kvText kvs ++ ")"
-  | .ref node _ path => "(ref " ++ node ++ String.join (path.map fun p => " " ++ p) ++ ")"
-  | .split c _ e => "(split " ++ c ++ " " ++ printR e ++ ")"
-  | .merge c _ e => "(merge " ++ c ++ " " ++ printR e ++ ")"
-  | .disabled d v => "(dis " ++ printR d ++ " " ++ printR v ++ ")"
+  | .ref node _ path =>
+    "(ref " ++ node ++
+      String.join ((sortKV (fs.map fun e => (e.1, idxText e.2))).map fun e => " (fk " ++ e.1 ++ " " ++ e.2 ++ ")") ++
+      String.join (path.map fun p => " " ++ p) ++ ")"
+  | .split c _ e => "(split " ++ c ++ " " ++ printRF fs e ++ ")"
+  | .merge c _ e => "(merge " ++ c ++ " " ++ printRF fs e ++ ")"
+  | .disabled d v => "(dis " ++ printRF fs d ++ " " ++ printRF fs v ++ ")"
+  | .fork c ix e => printRF ((c, ix) :: fs.filter fun x => x.1 != c) e
 where
   kvText (kvs : List (String × RExp)) : String :=
-    String.join ((sortKV (kvs.map fun kv => (hexOfStr kv.1, printR kv.2))).map fun kv =>
+    String.join ((sortKV (kvs.map fun kv => (hexOfStr kv.1, printRF fs kv.2))).map fun kv =>
       " (kv " ++ kv.1 ++ " " ++ kv.2 ++ ")")
+
+def printR : RExp → String := printRF []
+
+partial def hasFork : RExp → Bool
+  | .lit _ => false
+  | .arr xs => xs.any hasFork
+  | .map kvs => kvs.any fun kv => hasFork kv.2
+  | .struct kvs => kvs.any fun kv => hasFork kv.2
+  | .ref _ _ _ => false
+  | .split _ _ e => hasFork e
+  | .merge _ _ e => hasFork e
+  | .disabled d v => hasFork d || hasFork v
+  | .fork _ _ _ => true
 
 def fqid (path : List String) : String := ".".intercalate path
 
 def printStatic (s : RB × List SNode) : String :=
   "(cg" ++ String.join (s.2.map fun n =>
-    " (node " ++ fqid n.path ++ String.join (n.inputs.map fun kv =>
+    " (node " ++ fqid n.path ++ " (forks" ++ String.join (n.forks.map fun d => " " ++ d.1) ++ ")" ++
+      String.join (n.inputs.map fun kv =>
       s!" (in {kv.1} {kv.2.ty.base} {kv.2.ty.mapDim} {kv.2.ty.arrDim} " ++ printR kv.2.exp ++ ")") ++ ")") ++
   " (out " ++ printR s.1.exp ++ "))"
 
-def storeOfObs (outs : List (InstKey × J)) : Store :=
-  { outs := fun node _ => ((outs.find? fun o => fqid o.1.path == node).map (·.2)).getD .null
-    idx := fun _ _ => [] }
-
 def staticReply (P : Program) (obs : Option Obs) : String :=
-  if !Program.plain P then "skip not-plain" else
+  if !Program.mapsOfStages P then "skip not-plain" else
   let s := staticProgram P fqid
-  let frag := wellTypedB P && acyclicB P.table
+  if s.2.any (fun n => n.forks.any fun d => d.2.isEmpty) then "skip map-source-not-static" else
+  if s.2.any (fun n => !n.forks.isEmpty && n.inputs.any fun kv =>
+      match kv.2.exp with
+      | .split _ _ e => hasFork e
+      | _ => false) then "skip map-source-depends-on-map-call" else
+  let frag := wellTypedMB P && acyclicB P.table && decide ((s.2.map fun n => fqid n.path).Nodup)
   let (denV, rtV) :=
     match obs with
     | none => ("na", "na")
     | some obs =>
-      let ρ := storeOfObs obs.outs
-      let O : Oracle := fun k => (obs.outs.find? fun o => o.1.path == k.path).map (·.2)
+      let O : Oracle := oracleOf obs.outs
+      let ρ := storeOfNodes fqid s.2 O
       let d := den P O
-      let t := twoPhase P fqid ρ
+      let t := twoPhaseM P fqid ρ
       let same := render d.1 == render t.1 && d.2.length == t.2.length &&
         (d.2.zip t.2).all fun p => renderKey p.1.key == renderKey p.2.key && render p.1.args == render p.2.args
       let jobDiff := obs.jobs.findSome? fun j =>
         if j.chunk then none else
-        match t.2.find? (fun i => i.key.path == j.inst.path) with
+        match t.2.find? (fun i => covers j.inst i.key) with
         | none => some (mkDiff "rt-unexpected-node" j.key (renderKey j.inst) .dnull j.args)
         | some i => diffRecord "rt-args" j.key (fieldsOf i.args) (fieldsOf j.args)
       let topDiff := diffRecord "rt-top-outs" P.top.id
